@@ -24,7 +24,8 @@
 (* of the column set, with the results concatenated (family "fel").                  *)
 EXTENDS Integers, Sequences, FiniteSets, TLC, Json
 LOCAL INSTANCE SequencesExt
-CONSTANTS Seed, OutFile, Field, RowLetters, ColLetters, NRnd
+CONSTANTS Seed, OutFile, Field, RowLetters, ColLetters, NRnd,
+          NShards, Shard           \* rows are dealt to NShards runs (TLC interns every string it builds: a run must stay small)
 S  == INSTANCE SM2
 B  == INSTANCE Bn
 BN == INSTANCE BigNat
@@ -106,10 +107,13 @@ Bin2Res(op, p, q) == CASE op = "mul" -> MT!M2Mul(p, q) [] op = "mulu" -> MT!M2Mu
 Un2Res(op, p) == CASE op = "mulu1" -> MT!M2MulU1(p) [] op = "square" -> MT!M2Mul(p, p) [] op = "squareu" -> MT!M2MulU1(MT!M2Mul(p, p))
                    [] op = "neg" -> MT!M2Neg(p) [] op = "dbl" -> MT!M2Add(p, p) [] op = "tpl" -> MT!M2Add(MT!M2Add(p, p), p) [] op = "inv" -> MT!M2Inv(p)
 
+RECURSIVE ByteSum(_)
+ByteSum(v) == IF v = <<>> THEN 0 ELSE v[1] + ByteSum(Tail(v))
+Mine(v) == (IF Field = "gfp2" THEN ByteSum(v[1]) + 3 * ByteSum(v[2]) ELSE ByteSum(v)) % NShards = Shard
 Init == /\ phase = "row" /\ hist = <<>>
-        /\ IF Field = "gfp2" THEN a \in Pairs ELSE a \in (RowSet \cup (IF RawOps = {} THEN {} ELSE RawSet))
-Emit(ev) == /\ hist' = <<ev @@ [field |-> Field, m |-> H32(Modulus)]>>
-            /\ Em!Line(OutFile, ToJson([fam |-> "fel", steps |-> hist']))
+        /\ IF Field = "gfp2" THEN a \in {v \in Pairs : Mine(v)} ELSE a \in {v \in (RowSet \cup (IF RawOps = {} THEN {} ELSE RawSet)) : Mine(v)}
+Emit(ev) == /\ hist' = <<>>                            \* a row is written and forgotten (it is large, and nothing follows a row)
+            /\ Em!Line(OutFile, ToJson([fam |-> "fel", steps |-> <<ev @@ [field |-> Field, m |-> H32(Modulus)]>>]))
 Row(op) ==
   /\ phase = "row" /\ phase' = op /\ UNCHANGED a
   /\ IF Field = "gfp2"
